@@ -19,7 +19,7 @@ from .c10 import linear_matrix
 
 ID = 'C08'
 LEVEL = 'other'
-TECHNIQUE = 'jaxpr-level symbolic execution of mv -> coefficient matrix in the parameters + z3 on the tagged matrix property (QF_NRA for semidefiniteness)'
+TECHNIQUE = 'jaxpr-level symbolic execution of mv -> coefficient matrix in the parameters + z3 on the tagged matrix property (QF_NRA for semidefiniteness); also for every strict-diagonal specification the constructor accepts'
 EXPLANATION = ('Every concrete operator class found by walking the subclasses of AbstractLinearOperator is instantiated from the catalogue; '
                'for each lineax tag that answers True (and for the orthogonal/square decorators, detected from the rewired methods) the '
                'coefficient matrix M(params) of the traced mv is extracted and z3 decides the matrix property for ALL parameter values: '
